@@ -74,7 +74,7 @@ def run(ctx):
                 "distinct = patterns + basis + random messages judged.")
     ctx.assumptions += [
         "2^96 messages are covered by the 96 unit messages, exhaustive error patterns on two codewords each and randomised linearity checks, as the property's quantifier says",
-        "'never altered by repair' is judged on all 196 transmitted bits of error-free codewords (repair_if_necessary on the transmitted form, as the decoder calls it); the function's deinterleaved=True mode is not used by the library and is outside",
+        "'never altered by repair' is judged on all 196 transmitted bits of error-free codewords (repair_if_necessary on the transmitted form, as the decoder calls it, and on the de-interleaved form with deinterleaved=True)",
     ]
     core.setup_repo_path()
     import random
@@ -106,7 +106,13 @@ def run(ctx):
         kind = rng.random()
         msg = bitarray([rng.getrandbits(1) if kind < 0.8 else (1 if kind < 0.9 else 0) for _ in range(96)])
         cw = BPTC19696.encode(msg)
+        # the de-interleaved form of the codeword repaired as such (deinterleaved=True) must come back unchanged as well: recorded as
+        # the symmetric difference, which must be empty
+        dform = BPTC19696.deinterleave_all_bits(cw.copy())
+        dkeep = dform.copy()
+        drep = BPTC19696.repair_if_necessary(dform, deinterleaved=True)
         rand.append({"msg": ones(msg), "cw": ones(cw), "len": len(cw), "rep": ones(BPTC19696.repair_if_necessary(cw.copy())),
+                     "drepdiff": ones(drep ^ dkeep) + ones(dform ^ dkeep),
                      "dec": ones(BPTC19696.deinterleave_data_bits(cw.copy(), True)),
                      "decraw": ones(BPTC19696.deinterleave_data_bits(cw.copy(), False))})
     npat = 196 + 196 * 195 // 2
